@@ -32,8 +32,8 @@ looks at registers or memory. -/
 inductive Plan (Rule : Type) where
   | exec (r : Rule)        -- `UnwindResult::ExecRule`: cacheable
   | generic (row : Row)    -- translation failed: generic DWARF evaluation
+  | pe (p : PePlan)        -- PE epilog simulation / operation interpreter
   | staticErr              -- an error that does not depend on the thread state
-  deriving Repr
 
 structure Arch where
   Rule : Type
@@ -43,6 +43,10 @@ structure Arch where
   uncovered : Rule
   translate : Row → Option Rule
   generic : Row → Bool → Regs → Mem → GenOut Regs
+  /-- PE: what the module's `.pdata`/`UNWIND_INFO` decide before registers are consulted
+  (`none`: PE is not supported on this architecture), and the dynamic part. -/
+  pePlan : List PeFunc → Nat → Bool → Option (PePlan × Option Rule)
+  peRun : PePlan → Bool → Regs → Mem → GenOut Regs
 
 def archX64 : Arch where
   Rule := RuleX64
@@ -52,6 +56,10 @@ def archX64 : Arch where
   uncovered := .justReturnIfFirstFrameOtherwiseFp
   translate := translateX64
   generic := genericX64
+  pePlan := fun funcs rel first =>
+    let p := FH.pePlan funcs rel first
+    some (p, match p with | .exec r => some r | _ => none)
+  peRun := FH.peRun
 
 def archA64 : Arch where
   Rule := RuleA64
@@ -61,6 +69,8 @@ def archA64 : Arch where
   uncovered := .noOpIfFirstFrameOtherwiseFp
   translate := translateA64
   generic := genericA64
+  pePlan := fun _ _ _ => none
+  peRun := fun _ _ _ _ => .err .couldNotRecoverCfa
 
 /-- `unwind_frame_impl` up to the point where registers are consulted. -/
 def plan (A : Arch) (m : Module) (rel : Nat) (_first : Bool) : Plan A.Rule :=
@@ -75,6 +85,12 @@ def plan (A : Arch) (m : Module) (rel : Nat) (_first : Bool) : Plan A.Rule :=
       match A.translate r with
       | some rule => .exec rule
       | none => .generic r
+  | .pe funcs =>
+    match A.pePlan funcs rel _first with
+    | none => .staticErr                       -- `Aarch64Unsupported`
+    | some (_, some rule) => .exec rule
+    | some (.staticErr, none) => .staticErr
+    | some (p, none) => .pe p
 
 /-! ## Rule cache -/
 
@@ -145,6 +161,12 @@ def missPath (A : Arch) (u : Unw) (addr : FrameAddr) (regs : A.Regs) (mem : Mem)
         match A.generic row first regs mem with
         | .ok ra regs' => (none, .ret (resOfRa ra) regs')
         | .err _ => (none, A.exec A.fallback first regs mem)
+        | .panic s => (none, .panic s)
+      | .pe p =>
+        match A.peRun p first regs mem with
+        | .ok ra regs' => (none, .ret (resOfRa ra) regs')
+        | .err _ => (none, A.exec A.fallback first regs mem)
+        | .panic s => (none, .panic s)
 
 /-- `Unwinder::unwind_frame` (= `with_cache(.., unwind_frame_impl)`). -/
 def unwindFrame (A : Arch) (N : Nat) (u : Unw) (c : Cache A.Rule) (addr : FrameAddr)
@@ -175,6 +197,7 @@ def touchesSections (A : Arch) (N : Nat) (u : Unw) (c : Cache A.Rule) (addr : Fr
         match m.data with
         | .none => false
         | .dwarf _ _ => true
+        | .pe _ => true
 
 /-! ## Iterator (`UnwindIterator`) -/
 
